@@ -850,7 +850,7 @@ func runC16(c *core.Ctx) {
 	}
 	if r.P(0.7) {
 		// queried before the call (reads reorganise stores; what they leave behind must not outlive the reweighting)
-		c.Guard("query before Reweight", func() { mon.Observe(st.s, nil) })
+		c.Guard("query before Reweight", func() { mon.Observe(st.s, nil); st.s.I().GetSum() })
 		c.Count("reweight.after_a_query", 1)
 	}
 	before = statsOf(st.mdl.Items)
@@ -901,6 +901,20 @@ func runC16(c *core.Ctx) {
 	want := mon.Observe(twin, nil)
 	// the exact sum of the twin is accumulated in another order: compare it by bound (done above), not bitwise
 	got.HasSum, want.HasSum = false, false
+	// the approximate sum of the plain variant depends on the order in which a store is walked: compared with the
+	// twin's within a relative 1e-9 of the total of |value*weight| instead of bit for bit
+	sumsAgree := func(when string) {
+		if exact {
+			return
+		}
+		abs := 2 * statsOf(st.mdl.Items).absSum
+		gs, ws := st.s.I().GetSum(), twin.I().GetSum()
+		c.Count("oracle.plain_sum_vs_twin", 1)
+		if gs != ws && abs < math.MaxFloat64/1024 && !(math.Abs(gs-ws) <= 1e-9*abs+1e-300) {
+			c.Failf("reweight.sum_differs_from_scaled_adds", "%s Reweight(%v): GetSum()=%v, the sketch built with scaled weights reports %v", when, f, gs, ws)
+		}
+	}
+	sumsAgree("right after")
 	if d := want.Diff(got); d != "" {
 		c.Failf("reweight.differs_from_scaled_adds", "after Reweight(%v) the sketch differs from one built by adding the same items with scaled weights (built vs reweighted): %s", f, d)
 	}
@@ -937,6 +951,7 @@ func runC16(c *core.Ctx) {
 		if exact {
 			checkExactStats(c, st)
 		}
+		sumsAgree("after further additions following")
 		got := mon.Observe(st.s, nil)
 		want := mon.Observe(twin, nil)
 		got.HasSum, want.HasSum = false, false
